@@ -61,6 +61,44 @@ Check c10_involutive_counterexample :
   exists A B : mat R, inverse 2 2 A = Ok B /\ inverse 2 2 B = Err ESingularMatrix.
 Print Assumptions c10_involutive_counterexample.
 
+From SV Require Import Proofs.InverseAlg.
+(* the returned matrix is THE inverse: any right inverse or left inverse of A coincides with it *)
+Theorem c10_unique : forall (n : nat) (A B C : mat R), inverse n n A = Ok B ->
+  ((forall i j, (i < n)%nat -> (j < n)%nat -> mprod n A C i j = (if (i =? j)%nat then 1 else 0)) \/
+   (forall i j, (i < n)%nat -> (j < n)%nat -> mprod n C A i j = (if (i =? j)%nat then 1 else 0))) ->
+  forall i j, (i < n)%nat -> (j < n)%nat -> C i j = B i j.
+Proof. exact Proofs.InverseAlg.c10_unique. Qed.
+Check c10_unique : forall (n : nat) (A B C : mat R), inverse n n A = Ok B ->
+  ((forall i j, (i < n)%nat -> (j < n)%nat -> mprod n A C i j = (if (i =? j)%nat then 1 else 0)) \/
+   (forall i j, (i < n)%nat -> (j < n)%nat -> mprod n C A i j = (if (i =? j)%nat then 1 else 0))) ->
+  forall i j, (i < n)%nat -> (j < n)%nat -> C i j = B i j.
+Print Assumptions c10_unique.
+
+(* what a caller does with it ([mvec n M x] = M x, Proofs/InverseAlg.v): B b solves A x = b, it is the
+   only solution, and an inverted matrix has a trivial kernel (it is non-singular in the usual sense) *)
+Theorem c10_solves : forall (n : nat) (A B : mat R) (b : nat -> R), inverse n n A = Ok B ->
+  (forall i, (i < n)%nat -> mvec n A (mvec n B b) i = b i) /\
+  (forall x, (forall i, (i < n)%nat -> mvec n A x i = b i) ->
+             forall i, (i < n)%nat -> x i = mvec n B b i) /\
+  (forall x, (forall i, (i < n)%nat -> mvec n A x i = 0) -> forall i, (i < n)%nat -> x i = 0).
+Proof. exact Proofs.InverseAlg.c10_solves. Qed.
+Check c10_solves : forall (n : nat) (A B : mat R) (b : nat -> R), inverse n n A = Ok B ->
+  (forall i, (i < n)%nat -> mvec n A (mvec n B b) i = b i) /\
+  (forall x, (forall i, (i < n)%nat -> mvec n A x i = b i) ->
+             forall i, (i < n)%nat -> x i = mvec n B b i) /\
+  (forall x, (forall i, (i < n)%nat -> mvec n A x i = 0) -> forall i, (i < n)%nat -> x i = 0).
+Print Assumptions c10_solves.
+
+(* the inverse of a product is the reversed product of the inverses, whenever the three inversions succeed *)
+Theorem c10_product : forall (n : nat) (A1 A2 B1 B2 C : mat R),
+  inverse n n A1 = Ok B1 -> inverse n n A2 = Ok B2 -> inverse n n (mprod n A1 A2) = Ok C ->
+  forall i j, (i < n)%nat -> (j < n)%nat -> C i j = mprod n B2 B1 i j.
+Proof. exact Proofs.InverseAlg.c10_product. Qed.
+Check c10_product : forall (n : nat) (A1 A2 B1 B2 C : mat R),
+  inverse n n A1 = Ok B1 -> inverse n n A2 = Ok B2 -> inverse n n (mprod n A1 A2) = Ok C ->
+  forall i j, (i < n)%nat -> (j < n)%nat -> C i j = mprod n B2 B1 i j.
+Print Assumptions c10_product.
+
 (* non-vacuity: [[0,1],[1,0]], whose factorisation needs a row interchange, is inverted *)
 Example c10_nonvacuous : exists B, inverse 2 2 ex_swap = Ok B.
 Proof. exact Proofs.Inverse.ex_inverse_ok. Qed.
